@@ -18,30 +18,37 @@ RULE = (
 ASSUMPTIONS = ["an empty input for CommandResponseStream is a stream of zero messages (D-7)", "a cut that also changes which size error is due is judged by the model like any other input"]
 
 
+ROOTS = ["", "", "", "cmd", ".log.entry"]
+
+
 def check_case(ctx, L, ex):
     case, suffix = ex
     model_for_case(L, case)
     ctx.count("messages")
     ctx.add("types", case.type)
     n = len(case.data)
+    # the caller may choose the root path of the events (root_path=); streams use the default root
+    root = "" if case.type == "CommandResponseStream" else ROOTS[(len(suffix) + suffix[0]) % len(ROOTS)]
+    if root:
+        ctx.count("custom-root-path")
     for cut in range(0, n):
         data = case.data[:cut]
-        ref, obs = strict_pair(L, case.type, data, case.cc, case.enc)
+        ref, obs = strict_pair(L, case.type, data, case.cc, case.enc, root=root)
         nontrivial = case.type != "Command" or cut < 10 or any(r["start"] <= cut < r["start"] + r["max"] and r["path"].count(".") > 1 for r in ref.regions)
         ctx.case((case.type, case.cc, case.enc, data), nontrivial, sample={"type": case.type, "cut": cut, "of": n, "model": ref.kinds, "hex": data.hex()[:120]} if cut == n // 2 else None)
         for k in ref.kinds:
             ctx.count(f"cut:{k}")
-        if not report(ctx, ID, L, case.type, data, case.cc, case.enc, ref, obs, extra=f"cut at {cut} of {n}"):
+        if not report(ctx, ID, L, case.type, data, case.cc, case.enc, ref, obs, extra=f"cut at {cut} of {n}", root=root):
             return
     for k in sorted({1, 2, len(suffix)}):
         if not 1 <= k <= len(suffix):
             continue
         data = case.data + suffix[:k]
-        ref, obs = strict_pair(L, case.type, data, case.cc, case.enc)
+        ref, obs = strict_pair(L, case.type, data, case.cc, case.enc, root=root)
         ctx.case((case.type, case.cc, case.enc, data), True, sample={"type": case.type, "suffix": suffix[:k].hex(), "model": ref.kinds} if k == len(suffix) else None)
         for kk in ref.kinds:
             ctx.count(f"suffix:{kk}")
-        if not report(ctx, ID, L, case.type, data, case.cc, case.enc, ref, obs, extra=f"suffix {suffix[:k].hex()} appended"):
+        if not report(ctx, ID, L, case.type, data, case.cc, case.enc, ref, obs, extra=f"suffix {suffix[:k].hex()} appended", root=root):
             return
 
 
@@ -56,11 +63,26 @@ def empty_inputs(ctx, L):
             return
 
 
+def huge_suffixes(ctx, L):
+    """Surplus far beyond any message size (around 64 KiB and 1 MiB): must be carried completely."""
+    base = bytes.fromhex("80010000000c000001440000")
+    sizes = [65535, 65536, 65537, 70000, 200000, (1 << 20) + 1]
+    for n in ctx.mine(sizes):
+        suffix = bytes((i * 31 + n) & 0xFF for i in range(n))
+        for t, data in (("Command", base + suffix), ("UINT32", b"\x00\x00\x00\x07" + suffix)):
+            ref, obs = strict_pair(L, t, data)
+            ctx.case((t, "huge-suffix", n), True, sample={"type": t, "surplus_bytes": n})
+            ctx.count("huge-suffixes")
+            if not report(ctx, ID, L, t, data[:64], None, False, ref, obs, extra=f"{n} surplus bytes (input shown truncated)") :
+                return
+
+
 def run_shard(ctx):
     L = layout()
     body = lambda ex: check_case(ctx, L, ex)  # noqa: E731
     q = ctx.quick()
     ctx.run_plain(lambda: empty_inputs(ctx, L), "empty")
+    ctx.run_plain(lambda: huge_suffixes(ctx, L), "huge-suffix")
     suffix = st.binary(min_size=1, max_size=8)
     for name, strat, n in (
         ("commands", gen.commands(L, rare=False), 100 if q else 1500),
